@@ -99,7 +99,7 @@ CLAIMS = {
              'piece_of_bytes / piece_of_str / ustr_spec; render_blocks (the statements after the call of render_blocks_) and '
              'join_unicode are translated from the source on every run (GenJoin.lean) and proved equal to joinPieces / '
              'joinUnicode: gen_render_blocks_is_model, gen_join_unicode_is_model (with gen_join_unicode_loop_body, '
-             'gen_join_unicode_default_encoding, gen_render_blocks_is_renderJoined). Correspondence: results of 22 insertion forms x texts x {utf-8, '
+             'gen_join_unicode_default_encoding, gen_render_blocks_is_renderJoined); ustr / _exception_str are translated too (GenUstr.lean): gen_ustr_is_model (= pieceOfVal / ustr on every value of the model), gen_exception_str_is_model, gen_exception_str_args, gen_ustr_other_kinds, gen_ustr_own_str, gen_ustr_tuple, gen_ustr_raises_only (raises only where the own __str__ or an oracle str() misbehaves), gen_ustr_model_value_never_raises. Correspondence: results of 22 insertion forms x texts x {utf-8, '
              'latin-1} with the value given as bytes and as text; oracle: render(bytes) == render(text) and text result, also '
              'for cp1252 and utf-16 templates; str() table of 35 values (exceptions with 0/1/n and falsy args, objects with '
              '__str__) through 6 forms; class objects; misbehaving __str__ raises; several template objects per process (same '
@@ -107,7 +107,7 @@ CLAIMS = {
         note='Trusted: Lean kernel; interpreter model validated (not verified) against the real classes; codecs other than '
              'UTF-8 / Latin-1 and Python str()/repr() of containers are oracle-only. Partial: the full Var.render path decodes '
              'bytes as Latin-1 (known finding C19-bytes-fullpath, same defect as C03-bytes-fullpath)',
-        technique='Lean 4 proof over a model partly regenerated from the source on every run (statement-by-statement translator of render_blocks / join_unicode, equality with the hand-written model proved); Lean 4 proof (codec round trips from the core UTF-8 lemmas, induction over the piece list) + '
+        technique='Lean 4 proof over a model partly regenerated from the source on every run (statement-by-statement translator of render_blocks / join_unicode / ustr / _exception_str, equality with the hand-written model proved); Lean 4 proof (codec round trips from the core UTF-8 lemmas, induction over the piece list) + '
                   'model/implementation correspondence + bytes-vs-text oracle',
         ref='DESIGN.md §5 C19'),
     'C10': dict(
